@@ -155,18 +155,20 @@ contract(
     ["C01", "C19"],
     inputs=[dict(self=_crs_shape(), other=_crs_shape()), dict(self=_crs_shape(), other=None)],
     requires=[
-        lambda self, other: And(wf_crs(self), wf_crs(other), _epsg_injective(self, other)) if other is not None else wf_crs(self),
+        # NO assumption that equal EPSG codes mean equal CRSs (pyproj identifies a lon/lat proj4 string with EPSG:4326 without
+        # holding the two equal): only that the code is a FUNCTION of the pyproj class, which the uninterpreted EPSG(k) is
+        lambda self, other: And(wf_crs(self), wf_crs(other)) if other is not None else wf_crs(self),
     ],
     ensures=[
         (
-            "equal iff same CRS (same pyproj equivalence class); never equal to None",
+            "equal iff same CRS (same pyproj equivalence class), whatever was cached on either object before; never equal to None",
             lambda self, other, result: (result is False) if other is None else Iff(result, self._crs.k == other._crs.k),
         )
     ],
     returns=lambda self, other: SymBoolShape(),
     inline=True,  # callers hold concrete CRS objects: they run the real __eq__, never this stub
     native_oracle=_eq_oracle,
-    note="pyproj's == is assumed an equivalence consistent with EPSG codes; cached codes/strings are tied to the pyproj object by the stated invariant",
+    note="pyproj's == is assumed an equivalence under which the EPSG code is a function of the class (NOT the converse: equal codes settle nothing); cached codes/strings are tied to the pyproj object by the stated invariant",
 )
 
 contract(
@@ -174,7 +176,7 @@ contract(
     ["C01", "C19"],
     inputs=[dict(self=_crs_shape(), other=_crs_shape()), dict(self=_crs_shape(), other=None)],
     requires=[
-        lambda self, other: And(wf_crs(self), wf_crs(other), _epsg_injective(self, other)) if other is not None else wf_crs(self),
+        lambda self, other: And(wf_crs(self), wf_crs(other)) if other is not None else wf_crs(self),
     ],
     ensures=[
         (
